@@ -494,7 +494,7 @@ func (x *txcRun) scenario() string {
 	go func() { wg.Wait(); close(done) }()
 	select {
 	case <-done:
-	case <-time.After(30 * time.Second):
+	case <-time.After(patience(30 * time.Second)):
 		return "bad hang"
 	}
 	verifhook.Set(nil)
